@@ -324,15 +324,29 @@ func (c *FnCtx) mergeStates(sts []*State) *State {
 		return sts[0].clone()
 	}
 	out := &State{g: c.g, heaps: map[string]string{}, armed: map[*ssa.Defer]string{}, epoch: sts[0].epoch}
+	mixed := false
 	var rs []string
 	for _, s := range sts {
 		rs = append(rs, s.reach)
 		if s.epoch != out.epoch {
-			// different epochs: materialize by moving all to a new epoch is not possible; restrict
-			subsetf("join of states with different havoc epochs")
+			mixed = true
 		}
 	}
 	out.reach = c.define("R", SBool, "(or "+strings.Join(rs, " ")+")")
+	if mixed {
+		// the incoming states went through different "havoc everything" points: nothing relates their heaps,
+		// so the join knows nothing about memory either (sound over-approximation)
+		c.ctr++
+		out.epoch = c.ctr
+		n := c.declare("next", SInt)
+		for _, s := range sts {
+			c.emit(fmt.Sprintf("(assert (=> %s (>= %s %s)))", s.reach, n, s.next))
+		}
+		out.next = n
+		c.g.noteEpoch(out.epoch)
+		c.emit(fmt.Sprintf("(assert (= wfnext@%d %s))", out.epoch, n))
+		return out
+	}
 	names := map[string]bool{}
 	for _, s := range sts {
 		for k := range s.heaps {
